@@ -16,6 +16,7 @@ TARGETS = {
  "R8-unplayable-fen-accepted": ["C14"],
  "R9-root-entry-not-restored": ["C03", "C04"],
  "R10-root-answered-from-repeating-entry": ["C17"],
+ "R11-root-restore-overwrites-newer-entry": ["C06", "C03"],
  "M2-poll-only-at-exactly-10000": ["C04"],
  "M3-insert-keeps-deeper-entry": ["C15"],
  "M4-writer-not-joined": ["C07"],
